@@ -130,8 +130,28 @@ func recheck(path string, names []string, content map[string][]byte, imp types.I
 }
 
 // Canonicalize computes the overlay and alias table for the loaded packages.
-func Canonicalize(pkgs []*packages.Package) (*Canon, error) {
+// reload type-checks the module again under an overlay (used after renaming back).
+func Canonicalize(pkgs []*packages.Package, reload func(map[string][]byte) ([]*packages.Package, error)) (*Canon, error) {
 	cn := &Canon{Overlay: map[string][]byte{}, Aliases: map[string]string{}}
+	if edits, notes := computeRenames(pkgs); len(edits) > 0 && reload != nil {
+		ov := map[string][]byte{}
+		for f, es := range edits {
+			src, err := os.ReadFile(f)
+			if err != nil {
+				return nil, err
+			}
+			ov[f] = applyEdits(src, es)
+		}
+		if np, err := reload(ov); err == nil {
+			pkgs = np
+			for f, b := range ov {
+				cn.Overlay[f] = b
+			}
+			cn.Notes = append(cn.Notes, notes...)
+		} else {
+			cn.Notes = append(cn.Notes, fmt.Sprintf("renaming back was abandoned (the renamed program does not type-check: %v)", err))
+		}
+	}
 	for _, pk := range pkgs {
 		if !analysedPkg(pk.PkgPath) {
 			continue
@@ -230,6 +250,10 @@ func canonPkg(cn *Canon, pk *packages.Package) error {
 	names := append([]string{}, pk.CompiledGoFiles...)
 	content := map[string][]byte{}
 	for _, n := range names {
+		if ob, ok := cn.Overlay[n]; ok {
+			content[n] = ob
+			continue
+		}
 		b, err := os.ReadFile(n)
 		if err != nil {
 			return err
@@ -412,6 +436,9 @@ func canonPkg(cn *Canon, pk *packages.Package) error {
 	}
 	for _, n := range names {
 		orig, _ := os.ReadFile(n)
+		if ob, ok := cn.Overlay[n]; ok {
+			orig = ob
+		}
 		if !bytes.Equal(orig, content[n]) {
 			cn.Overlay[n] = content[n]
 		}
@@ -663,6 +690,62 @@ func (fl *flattener) flattenOnce(f *ast.File, skip map[*ast.FuncLit]bool) (chang
 		}
 		return nil, nil, nil
 	}
+	// argOperand: the statement is a call (possibly assigned or returned) one of whose ARGUMENTS is a flattenable
+	// literal call. The arguments before it that are not plain are evaluated into temporaries first, in order, so
+	// that the order of all calls is preserved; then the literal is unwrapped; later arguments stay where they are.
+	argOperand := func(s ast.Stmt) (outer *ast.CallExpr, j int) {
+		var e ast.Expr
+		switch x := s.(type) {
+		case *ast.ExprStmt:
+			e = x.X
+		case *ast.AssignStmt:
+			if len(x.Rhs) == 1 {
+				e = x.Rhs[0]
+				for _, l := range x.Lhs {
+					if !plainExpr(l) {
+						return nil, -1
+					}
+				}
+			}
+		case *ast.ReturnStmt:
+			if len(x.Results) == 1 {
+				e = x.Results[0]
+			}
+		}
+		c, ok := e.(*ast.CallExpr)
+		if !ok || !plainExpr(c.Fun) {
+			return nil, -1
+		}
+		if _, isLit := c.Fun.(*ast.FuncLit); isLit {
+			return nil, -1
+		}
+		for i, a := range c.Args {
+			ic, il := iife(a)
+			if ic == nil {
+				hasLit := false
+				ast.Inspect(a, func(n ast.Node) bool {
+					if _, ok := n.(*ast.FuncLit); ok {
+						hasLit = true
+					}
+					return !hasLit
+				})
+				if hasLit {
+					return nil, -1
+				}
+				continue
+			}
+			if !flattenable(il) {
+				return nil, -1
+			}
+			for _, ia := range ic.Args {
+				if !plainExpr(ia) {
+					return nil, -1
+				}
+			}
+			return c, i
+		}
+		return nil, -1
+	}
 	build := func(call *ast.CallExpr, lit *ast.FuncLit) (pre []ast.Stmt, repl ast.Expr) {
 		var temps, named []string
 		var inner []ast.Stmt
@@ -756,6 +839,22 @@ func (fl *flattener) flattenOnce(f *ast.File, skip map[*ast.FuncLit]bool) (chang
 				}
 			}
 			call, lit, set := operand(target)
+			var hoisted []ast.Stmt
+			if call == nil && target == s {
+				if outer, j := argOperand(s); outer != nil {
+					for i := 0; i < j; i++ {
+						if plainExpr(outer.Args[i]) {
+							continue
+						}
+						t := fl.fresh("T")
+						hoisted = append(hoisted, &ast.AssignStmt{Lhs: []ast.Expr{ast.NewIdent(t)}, Tok: token.DEFINE, Rhs: []ast.Expr{outer.Args[i]}})
+						outer.Args[i] = ast.NewIdent(t)
+					}
+					call, lit = iife(outer.Args[j])
+					jj := j
+					set = func(e ast.Expr) { outer.Args[jj] = e }
+				}
+			}
 			if call != nil {
 				tried = lit
 				pre, repl := build(call, lit)
@@ -763,6 +862,7 @@ func (fl *flattener) flattenOnce(f *ast.File, skip map[*ast.FuncLit]bool) (chang
 					continue
 				}
 				var newStmts []ast.Stmt
+				newStmts = append(newStmts, hoisted...)
 				newStmts = append(newStmts, pre...)
 				keep := true
 				if cl, ok := repl.(*ast.CompositeLit); ok && cl.Type == nil {
@@ -861,4 +961,286 @@ func flattenFile(name string, content map[string][]byte, check func() error) int
 		n++
 	}
 	return n
+}
+
+// ---------------------------------------------------------------------------
+// Rename-back: identifiers are not roles of behaviour. A named type, a struct
+// field or a function of the analysed packages that the rules know by name and
+// that was merely RENAMED is given its known name again in the overlay, through
+// the type-checker's own object resolution (every defining and using identifier
+// of the object is rewritten). Matching is by shape only and must be unique:
+//
+//   type:   a known type is missing, exactly one new type has the same shape
+//           (same kind; for structs the same sequence of field types, for
+//           interfaces the same method signatures up to names, ...);
+//   field:  inside a (matched) struct, a known field is missing and exactly one
+//           new field has its type (several of one type: matched in order);
+//   func:   a known function or method is missing and exactly one new one has
+//           its flattened signature AND the same receiver-ness (function ->
+//           method moves are left to the alias table).
+//
+// The rewritten program must type-check; otherwise nothing is renamed.
+
+// TypeShape renders the shape of a named type with field and method names
+// removed; named types of the analysed packages are replaced through canon.
+func TypeShape(n *types.Named, canon func(string) string) string {
+	q := func(p *types.Package) string { return p.Path() }
+	ts := func(t types.Type) string { return canon(types.TypeString(t, q)) }
+	switch u := n.Underlying().(type) {
+	case *types.Struct:
+		var fs []string
+		for i := 0; i < u.NumFields(); i++ {
+			e := ""
+			if u.Field(i).Embedded() {
+				e = "embedded "
+			}
+			fs = append(fs, e+ts(u.Field(i).Type()))
+		}
+		return "struct{" + strings.Join(fs, "; ") + "}"
+	case *types.Interface:
+		var ms []string
+		for i := 0; i < u.NumMethods(); i++ {
+			ms = append(ms, ts(u.Method(i).Type()))
+		}
+		sort.Strings(ms)
+		return "interface{" + strings.Join(ms, "; ") + "}"
+	default:
+		return ts(u)
+	}
+}
+
+type renameEdit struct {
+	file     string
+	off, end int
+	text     string
+}
+
+// computeRenames returns the edits that give renamed types, fields and
+// functions their known names back, plus notes.
+func computeRenames(pkgs []*packages.Package) (map[string][]renameEdit, []string) {
+	edits := map[string][]renameEdit{}
+	var notes []string
+	ren := map[types.Object]string{}
+	ident := func(s string) string { return s }
+	for _, pk := range pkgs {
+		if !analysedPkg(pk.PkgPath) {
+			continue
+		}
+		prefix := strings.ReplaceAll(pk.PkgPath, ModPath, "dig")
+		scope := pk.Types.Scope()
+		// ---- types
+		cur := map[string]*types.Named{}
+		for _, nm := range scope.Names() {
+			if tn, ok := scope.Lookup(nm).(*types.TypeName); ok && !tn.IsAlias() {
+				if n, ok := tn.Type().(*types.Named); ok && n.TypeParams().Len() == 0 {
+					cur[prefix+"."+nm] = n
+				}
+			}
+		}
+		var missingT, newT []string
+		for k := range knownTypes {
+			if knownTypePkg(k) == prefix {
+				if _, ok := cur[k]; !ok {
+					missingT = append(missingT, k)
+				}
+			}
+		}
+		for k := range cur {
+			if _, ok := knownTypes[k]; !ok {
+				newT = append(newT, k)
+			}
+		}
+		sort.Strings(missingT)
+		sort.Strings(newT)
+		typeAlias := map[string]string{} // new short name -> known short name
+		for _, m := range missingT {
+			var cands []string
+			for _, u := range newT {
+				if typeAlias[u] == "" && TypeShape(cur[u], ident) == knownTypes[m].Shape {
+					cands = append(cands, u)
+				}
+			}
+			same := 0
+			for _, m2 := range missingT {
+				if knownTypes[m2].Shape == knownTypes[m].Shape {
+					same++
+				}
+			}
+			if len(cands) == 1 && same == 1 {
+				typeAlias[cands[0]] = m
+				ren[cur[cands[0]].Obj()] = m[strings.LastIndex(m, ".")+1:]
+				notes = append(notes, fmt.Sprintf("type %s is the renamed %s (same shape): renamed back", cands[0], m))
+			}
+		}
+		// ---- fields
+		for k, n := range cur {
+			known := k
+			if a, ok := typeAlias[k]; ok {
+				known = a
+			}
+			kt, ok := knownTypes[known]
+			if !ok || len(kt.Fields) == 0 {
+				continue
+			}
+			st, ok := n.Underlying().(*types.Struct)
+			if !ok {
+				continue
+			}
+			q := func(p *types.Package) string { return p.Path() }
+			curNames := map[string]bool{}
+			for i := 0; i < st.NumFields(); i++ {
+				curNames[st.Field(i).Name()] = true
+			}
+			knownNames := map[string]bool{}
+			for _, f := range kt.Fields {
+				knownNames[f[0]] = true
+			}
+			// group missing known fields and new current fields by type string, in order
+			missByT := map[string][]string{}
+			for _, f := range kt.Fields {
+				if !curNames[f[0]] {
+					missByT[f[1]] = append(missByT[f[1]], f[0])
+				}
+			}
+			newByT := map[string][]*types.Var{}
+			for i := 0; i < st.NumFields(); i++ {
+				f := st.Field(i)
+				if !knownNames[f.Name()] && !f.Embedded() {
+					t := types.TypeString(f.Type(), q)
+					newByT[t] = append(newByT[t], f)
+				}
+			}
+			for t, ms := range missByT {
+				ns := newByT[t]
+				if len(ns) != len(ms) || len(ms) == 0 {
+					continue
+				}
+				for i := range ms {
+					ren[ns[i]] = ms[i]
+					notes = append(notes, fmt.Sprintf("field %s.%s is the renamed %s.%s (same type): renamed back", k, ns[i].Name(), known, ms[i]))
+				}
+			}
+		}
+		// ---- functions and methods (pure renames only)
+		decl := map[string]*types.Func{}
+		for _, f := range pk.Syntax {
+			for _, d := range f.Decls {
+				if fd, ok := d.(*ast.FuncDecl); ok {
+					if o, ok := pk.TypesInfo.Defs[fd.Name].(*types.Func); ok {
+						decl[shortFuncName(o)] = o
+					}
+				}
+			}
+		}
+		canonT := func(s string) string {
+			for nw, old := range typeAlias {
+				s = strings.ReplaceAll(s, strings.ReplaceAll(nw, "dig", ModPath), strings.ReplaceAll(old, "dig", ModPath))
+			}
+			return s
+		}
+		canonName := func(s string) string {
+			for nw, old := range typeAlias {
+				s = strings.ReplaceAll(s, nw+")", old+")")
+			}
+			return s
+		}
+		var missingF, newF []string
+		have := map[string]bool{}
+		for n := range decl {
+			have[canonName(n)] = true
+		}
+		for n := range knownFuncs {
+			if knownPkgOf(n) == prefix && !have[n] {
+				missingF = append(missingF, n)
+			}
+		}
+		for n := range decl {
+			if _, ok := knownFuncs[canonName(n)]; !ok && !strings.HasSuffix(n, ".init") {
+				newF = append(newF, n)
+			}
+		}
+		sort.Strings(missingF)
+		sort.Strings(newF)
+		usedF := map[string]bool{}
+		for _, m := range missingF {
+			var cands []string
+			for _, u := range newF {
+				if usedF[u] {
+					continue
+				}
+				isMethodK := strings.HasPrefix(m, "(")
+				isMethodU := strings.HasPrefix(u, "(")
+				if isMethodK != isMethodU {
+					continue
+				}
+				if isMethodK && canonName(u[:strings.LastIndex(u, ".")]) != m[:strings.LastIndex(m, ".")] {
+					continue
+				}
+				if canonT(SigKey(decl[u])) == knownFuncs[m] {
+					cands = append(cands, u)
+				}
+			}
+			same := 0
+			for _, m2 := range missingF {
+				if knownFuncs[m2] == knownFuncs[m] && strings.HasPrefix(m2, "(") == strings.HasPrefix(m, "(") &&
+					(!strings.HasPrefix(m, "(") || m2[:strings.LastIndex(m2, ".")] == m[:strings.LastIndex(m, ".")]) {
+					same++
+				}
+			}
+			if len(cands) == 1 && same == 1 {
+				usedF[cands[0]] = true
+				ren[decl[cands[0]]] = m[strings.LastIndex(m, ".")+1:]
+				notes = append(notes, fmt.Sprintf("%s is the renamed %s (same signature): renamed back", cands[0], m))
+			}
+		}
+	}
+	if len(ren) == 0 {
+		return nil, nil
+	}
+	// interface methods that a renamed method implements keep their names: renaming one side only would break the
+	// type check, in which case the whole renaming is dropped by the caller.
+	for _, pk := range pkgs {
+		if !analysedPkg(pk.PkgPath) {
+			continue
+		}
+		add := func(id *ast.Ident, o types.Object) {
+			nn, ok := ren[o]
+			if !ok || id.Name == nn {
+				return
+			}
+			p := pk.Fset.Position(id.Pos())
+			edits[p.Filename] = append(edits[p.Filename], renameEdit{file: p.Filename, off: p.Offset, end: p.Offset + len(id.Name), text: nn})
+		}
+		for id, o := range pk.TypesInfo.Defs {
+			if o != nil {
+				add(id, o)
+			}
+		}
+		for id, o := range pk.TypesInfo.Uses {
+			add(id, o)
+		}
+	}
+	return edits, notes
+}
+
+func knownTypePkg(k string) string { return k[:strings.LastIndex(k, ".")] }
+
+func applyEdits(src []byte, es []renameEdit) []byte {
+	sort.Slice(es, func(i, j int) bool { return es[i].off > es[j].off })
+	out := append([]byte{}, src...)
+	last := len(out) + 1
+	for _, e := range es {
+		if e.end > last || e.off < 0 || e.end > len(out) {
+			continue // overlapping or stale
+		}
+		out = append(out[:e.off], append([]byte(e.text), out[e.end:]...)...)
+		last = e.off
+	}
+	return out
+}
+
+// KnownType is an entry of the frozen type table.
+type KnownType struct {
+	Shape  string
+	Fields [][2]string // struct fields: name, type string
 }
